@@ -2,6 +2,7 @@ package main
 
 import (
 	"fmt"
+	"go/types"
 	"sort"
 	"strings"
 
@@ -364,15 +365,31 @@ func c03Impl(c *Ctx, im setImpl) {
 			}
 			ok, why := true, ""
 			enum := 0
+			var mapFields []*types.Var
+			for _, fn := range []string{"read", "dirty", "misses", "mu"} {
+				if f := c.P.FieldOf("sync2", "Map", fn); f != nil {
+					mapFields = append(mapFields, f)
+				}
+			}
 			for _, p := range ps {
+				onPath := 0
 				for i := range p.Events {
 					e := &p.Events[i]
+					// the Map's own fields are its business: a Set that reads them directly sees deleted entries and misses dirty ones
+					for _, t := range append(append([]*Term{e.Addr, e.Val}, e.Args...), p.Rets...) {
+						for _, f := range mapFields {
+							if t != nil && mentionsField(t, f) {
+								ok, why = false, name+" reads the Map's field "+f.Name()+" directly instead of enumerating with Range: deleted (nil/expunged) entries are counted, entries only in dirty are missed"
+							}
+						}
+					}
 					if e.Kind != "call" {
 						continue
 					}
 					switch {
 					case e.Name == "sync2.(*Set).Range" || e.Name == "sync2.(*Map).Range":
 						enum++
+						onPath++
 						// the closure must return true on every path and do its work unconditionally
 						for j := range p.Events {
 							if p.Events[j].Kind == "mkclosure" && p.Events[j].Val.Key() == e.Args[1].Key() {
@@ -401,13 +418,57 @@ func c03Impl(c *Ctx, im setImpl) {
 						ok, why = false, name+" reads the map through "+e.Name+" instead of enumerating with Range: deleted or not-yet-promoted entries are counted/missed"
 					}
 				}
+				if p.End == EndReturn && onPath != 1 && ok {
+					ok, why = false, fmt.Sprintf("a path (%s) answers after %d enumerations through Range", p.CondString(), onPath)
+				}
 			}
-			if ok && enum != 1 {
+			if ok && enum < 1 {
 				ok, why = false, fmt.Sprintf("%d enumerations through Range", enum)
 			}
 			o := R.Decide(ok, "enumeration-source", fi.Name, "range", c.pos(fi), "one complete enumeration through Range", why)
 			if !ok {
 				o.Breaks = name + " disagrees with Has/Range after deletions or promotions"
+			}
+		}
+		// no Set method looks inside the Map: membership is what the Map's methods say it is
+		{
+			var mapFields []*types.Var
+			for _, fn := range []string{"read", "dirty", "misses", "mu"} {
+				if f := c.P.FieldOf("sync2", "Map", fn); f != nil {
+					mapFields = append(mapFields, f)
+				}
+			}
+			for _, fi := range c.P.FuncsOfPkg("sync2") {
+				if !strings.HasPrefix(fi.Name, im.prefix) || c.P.Skip[fi] {
+					continue
+				}
+				bad := ""
+				for _, fn := range append([]*ssa.Function{fi.SSA}, fi.Closures...) {
+					for _, b := range fn.Blocks {
+						for _, in := range b.Instrs {
+							var fld *types.Var
+							switch x := in.(type) {
+							case *ssa.FieldAddr:
+								if st, isS := x.X.Type().Underlying().(*types.Pointer).Elem().Underlying().(*types.Struct); isS {
+									fld = st.Field(x.Field)
+								}
+							case *ssa.Field:
+								if st, isS := x.X.Type().Underlying().(*types.Struct); isS {
+									fld = st.Field(x.Field)
+								}
+							}
+							for _, f := range mapFields {
+								if fld != nil && sameField(fld, f) {
+									bad = f.Name()
+								}
+							}
+						}
+					}
+				}
+				o := R.Decide(bad == "", "enumeration-source", fi.Name, "map-internals", c.pos(fi), "uses the Map through its methods only", "reads or writes the Map's field "+bad+" directly: the read map holds deleted (nil/expunged) entries and lacks the ones only in dirty, so membership seen this way differs from Has")
+				if bad != "" {
+					o.Breaks = "a Set method disagrees with the membership model after deletions or before a promotion"
+				}
 			}
 		}
 		// Has is covered by C05.single-op; repeat the essential row here
